@@ -1804,10 +1804,13 @@ func lemmaForwardSession(raw *rawEnvelope) (e *Session, e3 *Session, accepted bo
 //@   ensures c.state == state
 
 // The two functions run (at most once each) by setState / Close through sync.Once.
+// rcvReady: what the receiver goroutine needs when it is spawned (its precondition):
+// all inbound streams and the done signal exist and are still open.
+//@ spec fn rcvReady(c *channel) bool = c.processingCmds != nil && streamsOpen(c, c.rcvDone)
+
 //@ func (*channel).startReceiver
 //@   props C06 C07 C08 C14
-//@   trusted spawns the receiver goroutine (receiveFromTransport, verified separately; the spawn site is pinned by the C06 census/onref obligations); sequentially it only records the cancel function
-//@   requires c != nil
+//@   requires c != nil && c.transport != nil && !payloadnil(c.transport) && rcvReady(c)
 //@   modifies c.cancel
 
 //@ func (*channel).stopReceiver
@@ -1818,6 +1821,7 @@ func lemmaForwardSession(raw *rawEnvelope) (e *Session, e3 *Session, accepted bo
 //@ func (*channel).setState
 //@   props C06 C07 C08
 //@   requires c != nil
+//@   requires [C06] @receiverready state == SessionStateEstablished && !c.startRcv.fired ==> c.transport != nil && !payloadnil(c.transport) && rcvReady(c)
 //@   panics only-if step(state) < step(c.state)
 //@   modifies c.state, c.startRcv.fired, c.stopRcv.fired, c.cancel
 //@   ensures c.state == state
@@ -1873,7 +1877,7 @@ func lemmaForwardSession(raw *rawEnvelope) (e *Session, e3 *Session, accepted bo
 
 //@ spec fn recvSes(c *channel) *Session = c.transport.lastRecv.(*Session)
 //@ spec fn synced(c *channel) bool = istype(c.transport.lastRecv, *Session) && recvSes(c) != nil && c.sessionID == recvSes(c).ID && c.state == recvSes(c).State
-//@ spec fn cliOK(c *ClientChannel) bool = c != nil && c.channel != nil && c.client && c.transport != nil && !payloadnil(c.transport)
+//@ spec fn cliOK(c *ClientChannel) bool = c != nil && c.channel != nil && c.client && c.transport != nil && !payloadnil(c.transport) && (!c.startRcv.fired ==> rcvReady(c.channel))
 
 //@ interface Authentication
 //@ method Authentication.GetAuthenticationScheme(a) (result)
@@ -1912,6 +1916,7 @@ func lemmaForwardSession(raw *rawEnvelope) (e *Session, e3 *Session, accepted bo
 //@   ensures err == nil && (result0.State == SessionStateFinished || result0.State == SessionStateFailed) ==> !c.transport.connected
 //@   ensures err == nil && old(c.state) != SessionStateEstablished ==> c.transport.nRecv == old(c.transport.nRecv) + 1 && istype(c.transport.lastRecv, *Session) && recvSes(c.channel) == result0
 //@   ensures step(c.state) >= step(old(c.state))
+//@   ensures cliOK(c)  ## in particular: the receiver can still be spawned (streams open) as long as it has not been
 
 //@ func (*ClientChannel).startNewSession
 //@   props C08
@@ -1925,6 +1930,7 @@ func lemmaForwardSession(raw *rawEnvelope) (e *Session, e3 *Session, accepted bo
 //@   ensures err == nil ==> result0 != nil && synced(c.channel) && recvSes(c.channel) == result0 && c.transport.nRecv == 1
 //@   ensures err == nil && result0.State == SessionStateEstablished ==> c.localNode == result0.To && c.remoteNode == result0.From
 //@   ensures err == nil && (result0.State == SessionStateFinished || result0.State == SessionStateFailed) ==> !c.transport.connected
+//@   ensures cliOK(c)  ## in particular: the receiver can still be spawned (streams open) as long as it has not been
 
 //@ func (*ClientChannel).negotiateSession
 //@   props C08
@@ -1939,6 +1945,7 @@ func lemmaForwardSession(raw *rawEnvelope) (e *Session, e3 *Session, accepted bo
 //@   ensures err == nil ==> result0 != nil && synced(c.channel) && recvSes(c.channel) == result0 && c.transport.nRecv > 0
 //@   ensures err == nil && result0.State == SessionStateEstablished ==> c.localNode == result0.To && c.remoteNode == result0.From
 //@   ensures err == nil && (result0.State == SessionStateFinished || result0.State == SessionStateFailed) ==> !c.transport.connected
+//@   ensures cliOK(c)  ## in particular: the receiver can still be spawned (streams open) as long as it has not been
 
 //@ func (*ClientChannel).authenticateSession
 //@   props C08
@@ -1952,11 +1959,13 @@ func lemmaForwardSession(raw *rawEnvelope) (e *Session, e3 *Session, accepted bo
 //@   ensures err == nil ==> result0 != nil && synced(c.channel) && recvSes(c.channel) == result0 && c.transport.nRecv > 0
 //@   ensures err == nil && result0.State == SessionStateEstablished ==> c.localNode == result0.To && c.remoteNode == result0.From
 //@   ensures err == nil && (result0.State == SessionStateFinished || result0.State == SessionStateFailed) ==> !c.transport.connected
+//@   ensures cliOK(c)  ## in particular: the receiver can still be spawned (streams open) as long as it has not been
 
 //@ func (*ClientChannel).sendFinishingSession
 //@   props C08
 //@   requires cliOK(c) && c.transport.nRecv > 0
 //@   modifies c.transport.nSent, c.transport.lastSent, c.transport.nSentSes, c.transport.lastSes, c.transport.connected, c.transport.stage, c.transport.offerEnc, c.transport.offerComp, c.transport.offerSchemes, c.transport.confEnc, c.transport.confComp
+//@   ensures cliOK(c)  ## in particular: the receiver can still be spawned (streams open) as long as it has not been
 
 //@ func (*ClientChannel).FinishSession
 //@   props C08
@@ -1968,6 +1977,7 @@ func lemmaForwardSession(raw *rawEnvelope) (e *Session, e3 *Session, accepted bo
 //@   modifies c.localNode, c.remoteNode, c.sessionID, c.state, c.startRcv.fired, c.stopRcv.fired, c.transport.nRecv, c.transport.lastRecv, recvClock, c.transport.connected, c.transport.nSent, c.transport.lastSent, c.transport.nSentSes, c.transport.lastSes, c.transport.stage, c.transport.offerEnc, c.transport.offerComp, c.transport.offerSchemes, c.transport.confEnc, c.transport.confComp, c.cancel
 //@   ensures err == nil ==> result0 != nil && c.state == result0.State
 //@   ensures err == nil && (result0.State == SessionStateFinished || result0.State == SessionStateFailed) ==> !c.transport.connected
+//@   ensures cliOK(c)  ## in particular: the receiver can still be spawned (streams open) as long as it has not been
 
 // Callbacks supplied by the application (assumptions: they return normally,
 // the authenticator returns a non-nil value, they do not touch the channel).
@@ -1996,6 +2006,7 @@ func lemmaForwardSession(raw *rawEnvelope) (e *Session, e3 *Session, accepted bo
 //@   ensures @rcv err == nil && result0.State == SessionStateEstablished ==> c.startRcv.fired
 //@   ensures @close err == nil && (result0.State == SessionStateFinished || result0.State == SessionStateFailed) ==> !c.transport.connected
 //@   ensures @started c.startRcv.fired && !old(c.startRcv.fired) ==> step(c.state) >= 3
+//@   ensures cliOK(c)  ## in particular: the receiver can still be spawned (streams open) as long as it has not been
 
 //@ func newChannel
 //@   props C06 C08
@@ -2004,6 +2015,7 @@ func lemmaForwardSession(raw *rawEnvelope) (e *Session, e3 *Session, accepted bo
 //@   ensures result != nil && fresh(result) && result.transport == t && result.state == SessionStateNew && !result.client
 //@   ensures result.sessionID == "" && result.localNode == Node{} && result.remoteNode == Node{}
 //@   ensures !result.startRcv.fired && !result.stopRcv.fired
+//@   ensures [C06] @streamsopen rcvReady(result)
 
 //@ func NewClientChannel
 //@   props C08
@@ -2049,7 +2061,7 @@ func lemmaForwardSession(raw *rawEnvelope) (e *Session, e3 *Session, accepted bo
 //@ ghost global finN int
 //@ ghost global finID string
 
-//@ spec fn srvOK(c *ServerChannel) bool = c != nil && c.channel != nil && !c.client && c.transport != nil && !payloadnil(c.transport) && c.sessionID != ""
+//@ spec fn srvOK(c *ServerChannel) bool = c != nil && c.channel != nil && !c.client && c.transport != nil && !payloadnil(c.transport) && c.sessionID != "" && (!c.startRcv.fired ==> rcvReady(c.channel))
 //@ spec fn maxStage(s SessionState) int = ite(s == SessionStateNew, 0, ite(s == SessionStateNegotiating, 2, ite(s == SessionStateAuthenticating, 3, ite(s == SessionStateEstablished, 4, ite(s == SessionStateFinished, 5, 6)))))
 //@ spec fn srvInv(c *ServerChannel) bool = srvOK(c) && authClock <= recvClock && regClock <= recvClock && c.transport.nSentSes >= 0 && c.transport.nRecv >= 0 && effStage(c.transport) <= maxStage(c.state) && validState(c.state) && c.state != SessionStateFinishing
 //@ spec fn order(prev int, s *Session) bool = sesStage(s) >= 1 && prev < 5 && (sesStage(s) > prev || (sesStage(s) == 3 && prev == 3 && s.Authentication != nil)) && (sesStage(s) == 2 ==> prev == 1)
@@ -2077,6 +2089,7 @@ func lemmaForwardSession(raw *rawEnvelope) (e *Session, e3 *Session, accepted bo
 //@   ensures result != nil && fresh(result) && result.channel != nil && fresh(result.channel) && result.transport == t && result.state == SessionStateNew && !result.client
 //@   ensures result.sessionID == sessionID && result.localNode == serverNode && result.remoteNode == Node{}
 //@   ensures !result.startRcv.fired && !result.stopRcv.fired
+//@   ensures [C06] @streamsopen rcvReady(result.channel)
 
 //@ func (*ServerChannel).receiveNewSession
 //@   props C03 C07 C14
